@@ -1,3 +1,4 @@
 -- family frontend: C41 C42 C43 C44.  Everything listed here must build: it is part of `lake build`.
 import Thanos.Driver.Frontend
 import Thanos.Props.C41
+import Thanos.Props.C43
